@@ -48,6 +48,8 @@ def modelled():
 
 
 class Harness:
+    structural = False      # obligations that restate HOW the code does something the property does not prescribe
+
     def __init__(self, fn, prop, name, cases, native_inputs, max_paths, group):
         self.fn = fn
         self.prop = prop
@@ -58,13 +60,14 @@ class Harness:
         self.group = group
 
 
-def harness(prop, cases=None, native_inputs=None, max_paths=4000, name=None, group="main"):
+def harness(prop, cases=None, native_inputs=None, max_paths=4000, name=None, group="main", structural=False):
     """register a contract harness.  cases: list of dicts (concrete case splits, e.g. None/int tags);
     native_inputs(case) -> iterable of input dicts for the bounded native run."""
 
     def deco(fn):
         nm = name or fn.__name__
         HARNESSES[(prop, nm)] = Harness(fn, prop, nm, cases or [{}], native_inputs, max_paths, group)
+        HARNESSES[(prop, nm)].structural = structural
         return fn
 
     return deco
@@ -320,6 +323,9 @@ def attr(o, name):
 
 
 def length(x):
+    from .values import GhostVal as _GV
+    if isinstance(x, _GV):
+        return x.pv_len()
     if isinstance(x, VList):
         return x.len()
     if isinstance(x, AbstractSeq):
